@@ -32,8 +32,8 @@ RULE = ("case = (R, P, variant, rmin, pmin, block of failure subsets); non-trivi
 ASSUMPTIONS = ["NaN rules apply to every evaluator call of a run (same failure pattern at every point)"]
 EXHAUSTIVE = {"quick": True, "thorough": True}
 BOUNDS = {"quick": {"exhaustive_R_P": [3, 2]}, "thorough": {"exhaustive_R_P": [3, 3]}}
-REQUIRED = {"quick": {"flags_checked": 8000, "gate_absent_checked": 1500, "grad_entries_compared": 3000, "differential_compared": 300, "garbage_compared": 300, "exit_code_checked": 94, "history_calls_judged": 500, "sampled_cases_with_default_thresholds.more_than_five_perturbations": 8, "infinite_value_cases_judged": 90, "rows_with_both_infinities": 100, "__nontrivial__": 300},
-            "thorough": {"flags_checked": 400000, "gate_absent_checked": 80000, "grad_entries_compared": 100000, "differential_compared": 8000, "garbage_compared": 8000, "exit_code_checked": 1906, "history_calls_judged": 12000, "sampled_cases_with_default_thresholds.more_than_five_perturbations": 200, "infinite_value_cases_judged": 1800, "rows_with_both_infinities": 2000, "__nontrivial__": 3000}}
+REQUIRED = {"quick": {"flags_checked": 8000, "gate_absent_checked": 1500, "grad_entries_compared": 3000, "differential_compared": 300, "garbage_compared": 300, "exit_code_checked": 94, "history_calls_judged": 500, "sampled_cases_with_default_thresholds.more_than_five_perturbations": 8, "sampled_cases_with_mixed_sign_weights": 8, "infinite_value_cases_judged": 90, "rows_with_both_infinities": 100, "__nontrivial__": 300},
+            "thorough": {"flags_checked": 400000, "gate_absent_checked": 80000, "grad_entries_compared": 100000, "differential_compared": 8000, "garbage_compared": 8000, "exit_code_checked": 1906, "history_calls_judged": 12000, "sampled_cases_with_default_thresholds.more_than_five_perturbations": 200, "sampled_cases_with_mixed_sign_weights": 250, "infinite_value_cases_judged": 1800, "rows_with_both_infinities": 2000, "__nontrivial__": 3000}}
 
 VARIANTS = ["mean", "stddev", "mixed_con", "filter_cvar", "filter_sort", "merged", "zero_weight", "stddev_equal"]
 
@@ -230,7 +230,9 @@ def _judge_subset(obs, spec, pm, x, tag):
         same_level = np.array_equal(failed_f, failed_g)      # (gradient-only failures: only the gradients can be compared)
         if path == "combined" and not spec.get("filters") and failed_g.any() and not failed_g.all() and gres.gradients is not None:
             keep = np.flatnonzero(~failed_g)
-            if np.any(np.asarray(spec["rweights"])[keep] > 0):
+            wk = np.asarray(spec["rweights"], dtype=float)[keep]
+            # (an ensemble whose weights do not sum to a positive number cannot be configured: no reduced reference there)
+            if np.any(wk > 0) and wk.sum() > 0.1 * np.abs(wk).sum():
                 rs = _reduced(spec, keep)
                 try:
                     f2, g2, _, _ = _run(rs, ens.make_config(rs), pm, "combined", x)
@@ -442,8 +444,16 @@ def run_case(case, obs):
         rng = rng_for(obs.seed, "c03s", case["i"])
         R, P = int(rng.integers(2, 7)), int(rng.integers(2, 9))
         variant = VARIANTS[int(rng.integers(len(VARIANTS)))]
+        mixed = R >= 3 and rng.random() < 0.15
+        if mixed:
+            variant = "mean"
         spec = _base_spec(R, P, variant, rng)
         spec["rmin"], spec["pmin"] = int(rng.integers(0, R + 1)), int(rng.integers(1, P + 1))
+        if mixed:
+            # mixed-sign realization weights (positive sum): after a failure the surviving weights may sum to a negative number -
+            # the estimate is still the mean under the surviving weights divided by their sum
+            spec["rweights"] = [3.0, 1.0, -2.0] + [1.0] * (R - 3)
+            obs.count("sampled_cases_with_mixed_sign_weights")
         if rng.random() < 0.3:
             # thresholds left to their documented defaults: every perturbation (every realization) has to succeed
             spec["pmin"] = None
